@@ -1,0 +1,6 @@
+//go:build !verif
+
+package column
+
+// verifPoint is a no-op unless built with the "verif" tag.
+func verifPoint(point string, c *Collection, chunk uint32) {}
